@@ -164,7 +164,9 @@ func (r *rig) apply(e *edge, check bool) string {
 		}
 	}
 	if len(got) != len(want) || (len(want) > 0 && strings.Join(got, "\n") != strings.Join(want, "\n")) {
-		prop := "C13"
+		// the NICK answers are part of C17; the MODE / WHO requests of the tracker are not claimed by
+		// any listed property (growth of the specification): a difference there is DRIFT, not a violation
+		prop := "DRIFT"
 		if o.Ev == "collide" || o.Ev == "nickrefuse" || o.Ev == "clientnick" {
 			prop = "C17"
 		}
@@ -267,16 +269,18 @@ type Failure struct {
 }
 
 type Summary struct {
-	Edges    int            `json:"edges"`
-	States   int            `json:"states"`
-	Sessions int            `json:"sessions"`
-	Events   map[string]int `json:"event_counts"`
-	Failures int            `json:"failures"`
-	Files    []string       `json:"failure_files"`
-	Samples  []interface{}  `json:"samples"`
-	Unplaced int            `json:"edges_with_unknown_source"`
-	Tracking bool           `json:"tracking"`
-	WallS    float64        `json:"wall_s"`
+	Edges        int            `json:"edges"`
+	States       int            `json:"states"`
+	Sessions     int            `json:"sessions"`
+	Events       map[string]int `json:"event_counts"`
+	Failures     int            `json:"failures"`
+	Files        []string       `json:"failure_files"`
+	Samples      []interface{}  `json:"samples"`
+	Unplaced     int            `json:"edges_with_unknown_source"`
+	Tracking     bool           `json:"tracking"`
+	WallS        float64        `json:"wall_s"`
+	Drift        int            `json:"drift"`
+	DriftExample string         `json:"drift_example"`
 }
 
 func pathTo(nodes map[string]*node, k string) []*edge {
@@ -364,6 +368,14 @@ func RunEdges(args []string) int {
 		curKey = tk
 		if len(sum.Samples) < 3 && len(e.O.Lines) > 2 {
 			sum.Samples = append(sum.Samples, map[string]interface{}{"event": e.O, "view_after": e.View})
+		}
+		if msg != "" && !strings.Contains(msg, "C13") && !strings.Contains(msg, "C17") {
+			// only differences outside the listed properties
+			sum.Drift++
+			if sum.DriftExample == "" {
+				sum.DriftExample = msg
+			}
+			msg = ""
 		}
 		if msg != "" {
 			sum.Failures++
